@@ -108,12 +108,13 @@ class Case:
         self.pub_fns = pub_fns or {}    # file -> names that must be external definitions
         self.tag = tag
         self.structure = None           # generator-level description (for shrinking)
+        self.cwd = ""                   # directory (below the run's root) penne is started in
 
     def to_json(self):
         return {"files": self.files, "orders": self.orders, "entropies": self.entropies,
                 "reference": list(self.reference) if self.reference else None,
                 "pub_fns": {k: sorted(v) for k, v in self.pub_fns.items()}, "tag": self.tag,
-                "structure": self.structure}
+                "structure": self.structure, "cwd": self.cwd}
 
     @staticmethod
     def from_json(d):
@@ -121,6 +122,7 @@ class Case:
         c = Case(d["files"], d["orders"], d["entropies"], ref,
                  {k: set(v) for k, v in (d.get("pub_fns") or {}).items()}, d.get("tag", ""))
         c.structure = d.get("structure")
+        c.cwd = d.get("cwd", "")
         return c
 
 
@@ -145,6 +147,9 @@ def evaluate_case(case, wd, check_artifacts=True, stats=None):
     """Run every (order, entropy) of the case. Returns list of
     (class, detail) violations; empty when all oracles hold."""
     fresh_dir(wd)
+    if case.cwd:
+        wd = os.path.join(wd, case.cwd)
+        os.makedirs(wd)
     write_files(wd, case.files)
     viol = []
     first = None       # behaviour of the first run
@@ -252,6 +257,9 @@ def evaluate_negative(neg, wd, stats=None):
     rejected with the expected undefined-reference code located in the
     referencing module, in every order."""
     fresh_dir(wd)
+    if neg.get("cwd"):
+        wd = os.path.join(wd, neg["cwd"])
+        os.makedirs(wd)
     write_files(wd, neg["files"])
     viol = []
     for order in neg["orders"]:
@@ -417,7 +425,7 @@ def build_program_cases(seed, i, tier):
            "shape": []}
     splits = []
     for s in range(cfg["splits"]):
-        sp = pngen.random_split(prog, rng)
+        sp = pngen.random_split(prog, rng, allow_parent=True)
         pert = pngen.perturb(sp, rng)
         item_order = {}
         for m in range(sp.k):
@@ -458,6 +466,8 @@ def build_program_cases(seed, i, tier):
                 pub_fns.setdefault(sp.files[m], set()).add(new)
         case = Case(files, orders, entropies, None, pub_fns, tag="split%d" % s)
         case.structure = structure
+        case.cwd = pngen.CWD_OF_LAYOUT.get(sp.files[1], "") if sp.k > 1 else ""
+        structure["cwd"] = case.cwd
         imports_max = max(len(sp.imports[m]) + len(sp.extra_imports.get(m, [])) for m in range(sp.k))
         out["shape"].append({"k": sp.k, "perturbations": sorted(pert), "max_imports": imports_max,
                              "layout": sp.files[0], "pub": len(sp.pub)})
@@ -476,7 +486,8 @@ def build_program_cases(seed, i, tier):
             out["negatives"].append({"files": nfiles, "orders": norders, "entropy": rng.getrandbits(64),
                                      "module_file": mf, "item": n["item"], "kind": n["kind"],
                                      "reason": n["reason"], "expect_code": n["expect_code"],
-                                     "probe": n["probe"], "import_line": n.get("import_line"), "structure": structure})
+                                     "probe": n["probe"], "import_line": n.get("import_line"), "structure": structure,
+                                     "cwd": case.cwd})
     # histories: this program's first split interleaved with an unrelated program
     for h in range(cfg["histories"]):
         sp, files, _names = splits[h % len(splits)]
